@@ -239,8 +239,23 @@ def gen(rng, tier, i):
             at = last_up + 1000 + probe_gap * j
             tunnel("probe%d" % j, at, False)
             probes.append("probe%d" % j)
+        last_probe = at
+        if kind == "quic":
+            # the known slow recovery of the QUIC connector (a connection attempt that has been pending since the first request of
+            # an outage is retried with exponential back-off) is bounded by the age of that attempt, which can span several outages:
+            # keep probing for that long, so that "slow" and "never" can be told apart
+            j = len(probes)
+            at = last_probe + 10000
+            while at <= last_up + (last_up - windows[0][0]) + 20000:
+                tunnel("probe%d" % j, at, False)
+                probes.append("probe%d" % j)
+                last_probe = at
+                j += 1
+                at += 10000
         tunnel("hfinal", last_up + 5000, True)
     end = (last_up if last_up is not None else windows[-1][0]) + 140000
+    if last_up is not None:
+        end = max(end, last_probe + 30000)
     sc.api_call("hist", "GET", "/api/history", start_ms=end)
     sc.meta = {"cls": "%s/%s/x%d" % (kind, outage, reps), "cfgkey": "%s/%s/%s/%s" % (kind, outage, cname, "-".join("%d:%s" % (d, u) for d, u in windows)),
                "kind": kind, "outage": outage, "windows": windows, "tunnels": tunnels, "probes": probes, "last_up": last_up, "keep_ops": True, "no_generic_fill_shrink": True}
